@@ -15,6 +15,7 @@ func init() {
 		},
 		NotDecided: []string{"that io.ReadFull/io.CopyN/time.Parse meet their documented contracts", "nanosecond exactness of pcommon.NewTimestampFromTime", "frames larger than memory"},
 		Rules: func(r *Run) {
+			ruleOwnWrapScoped(r, []string{dockerlogPkg}, 2) // a stream that fails is reported: Err/Close of the stream and merge iterators reach every source
 			ruleDaemonLog(r)
 		},
 	})
